@@ -42,6 +42,8 @@ OP_BINOPS = {
     ("Mult", "Z", "SparsePauliOp"): ("OpScale (inject_Z {0}) {1}", OP),
     ("Mult", "Q", "SparsePauliOp"): ("OpScale {0} {1}", OP),
     ("Sub", "SparsePauliOp", "SparsePauliOp"): ("OpSub {0} {1}", OP),
+    ("Mult", "SparsePauliOp", "Q"): ("OpScale {1} {0}", OP),
+    ("Add", "SparsePauliOp", "SparsePauliOp"): ("OpAdd {0} {1}", OP),
     # int ** int with a non-literal exponent (spec idiom pow-nonneg-exponent)
     ("Pow", "Z", "Z"): ("Z.pow {0} {1}", Z),
 }
@@ -82,6 +84,8 @@ SPEC = dict(
     module="C15Gen",
     link="coq/link/C15Link.v",
     imports=["From QV Require Import Jssp.DomainWall Translate.C15Aux."],
+    preamble=("(* data representation of the two attributes the tail of _prepare_hamiltonian assigns (its own state record) *)\n"
+              "Record enchamstate := mkHam { hs_ham : option opexpr; hs_prepared : bool }.\n"),
     coq_deps=["theories/Jssp/DomainWall_proofs.vo", "theories/Jssp/Encoder.vo", "theories/Jssp/Encoder_proofs.vo", "theories/Translate/C15Aux.vo"],
     reserved=["job", "operation", "instance", "schedule", "value", "values", "enc", "var_nq", "v", "st"],
     attrs={**DW_ATTRS, **INSTANCE_ATTRS},
@@ -139,5 +143,23 @@ SPEC = dict(
              params=PAIR, state=ENC_STATE, returns=OP, locals={"local_terms": List(OP)}),
         dict(py="JSSPDomainWallHamiltonianEncoder._early_start_term", source=ENC_SRC, gen="Enc_early_start_term",
              params=[], state=ENC_STATE, returns=OP, locals={"local_terms": List(OP)}),
+        # _prepare_hamiltonian, the part behind the three term loops: the two "no term of this kind" paddings and the two
+        # optimisation terms (fragment behind the third `for`), then the weighted sum that is stored (fragment behind
+        # `early_start_term = ...` up to the end of the method, with its own two-field state record)
+        dict(py="JSSPDomainWallHamiltonianEncoder._prepare_hamiltonian", source=ENC_SRC, gen="Enc_ham_pads_and_opt",
+             fragment=dict(path=[], after="For:2", count=4, outputs=["precedence_terms", "overlap_terms", "makespan_term", "early_start_term"]),
+             params=[("precedence_terms", "precedence_terms", List(OP)), ("overlap_terms", "overlap_terms", List(OP))],
+             extra_params=ENC_EXTRA, self_attrs=ENC_SELF, state=ENC_STATE, returns=Tup(List(OP), List(OP), OP, OP)),
+        dict(py="JSSPDomainWallHamiltonianEncoder._prepare_hamiltonian", source=ENC_SRC, gen="Enc_ham_weighted_sum",
+             fragment=dict(path=[], after="Assign=early_start_term", whole=True, outputs=[]),
+             params=[("precedence_terms", "precedence_terms", List(OP)), ("overlap_terms", "overlap_terms", List(OP)),
+                     ("variable_viability_terms", "variable_viability_terms", List(OP)), ("makespan_term", "makespan_term", OP),
+                     ("early_start_term", "early_start_term", OP)],
+             extra_params=[("p_enc", Q), ("p_ov", Q), ("p_prec", Q), ("p_opt", Q), ("p_share", Q)],
+             self_attrs={"_encoding_penalty": ("p_enc", Q), "_overlap_constraint_penalty": ("p_ov", Q), "_precedence_constraint_penalty": ("p_prec", Q),
+                         "_max_opt_value": ("p_opt", Q), "_opt_all_operations_share": ("p_share", Q)},
+             state=dict(var="hs", ty=Nom("enchamstate", "enchamstate"), ctor="mkHam",
+                        fields=[("_hamiltonian", "hs_ham", Opt(OP)), ("_hamiltonian_prepared", "hs_prepared", BOOL)]),
+             returns=UNIT),
     ],
 )
